@@ -18,6 +18,9 @@ pub struct Flags {
     pub c13: bool,
     /// compute decision margins before every call (for differential checks)
     pub margins: bool,
+    /// batch trackers: submit runs of consecutive predict operations on distinct scenes as one
+    /// multi-scene batch (several voting threads at work), alternating the retrieval mode
+    pub group_batches: bool,
 }
 
 #[derive(Clone, Copy, Debug, PartialEq)]
@@ -130,6 +133,8 @@ pub fn run_monitored_with(h: &History, flags: Flags, before_predict: &mut dyn Fn
     st.min_margin = f64::INFINITY;
     let shards = cfg.shards;
     let hist = cfg.history;
+    // results of a multi-scene batch that belong to later predict operations
+    let mut pending: BTreeMap<usize, Vec<Rec>> = BTreeMap::new();
     for (k, op) in h.ops.iter().enumerate() {
         let ep = |epochs: &BTreeMap<u64, usize>, s: u64| epochs.get(&s).copied().unwrap_or(0);
         // is some expired track still physically in the live store?
@@ -183,7 +188,38 @@ pub fn run_monitored_with(h: &History, flags: Flags, before_predict: &mut dyn Fn
                 }
                 let before_views: BTreeMap<u64, TrackView> = if flags.c13 && cfg.kind.is_visual() { tr.views(shards).into_iter().map(|v| (v.id, v)).collect() } else { BTreeMap::new() };
                 let installed = before_predict(k, dets.len());
-                let recs = tr.predict(*scene, &dets);
+                let recs = if let Some(r) = pending.remove(&k) {
+                    r
+                } else if flags.group_batches && cfg.kind.is_batch() {
+                    let mut batch = vec![(*scene, dets.clone())];
+                    let mut idxs = vec![k];
+                    let mut j = k + 1;
+                    while j < h.ops.len() && batch.len() < 4 {
+                        match &h.ops[j] {
+                            Op::Predict { scene: s2, dets: d2 } => {
+                                let dd = h.dets(d2, (j as i64 + 1) * 1000);
+                                if dd.is_empty() || batch.iter().any(|b| b.0 == *s2) {
+                                    break;
+                                }
+                                batch.push((*s2, dd));
+                                idxs.push(j);
+                                j += 1;
+                            }
+                            _ => break,
+                        }
+                    }
+                    let results = tr.predict_batch(&batch, k % 2 == 1);
+                    ensure!(results.len() == batch.len(), "c01-batch-result-count", "op {}: a batch of {} scenes delivered {} results", k, batch.len(), results.len());
+                    for (idx, (sc, _)) in idxs.iter().zip(batch.iter()) {
+                        let mut it = results.iter().filter(|x| x.0 == *sc);
+                        let r = it.next().map(|x| x.1.clone());
+                        ensure!(r.is_some() && it.next().is_none(), "c01-batch-result-scene", "op {}: the batch did not deliver exactly one result for scene {}", k, sc);
+                        pending.insert(*idx, r.unwrap());
+                    }
+                    pending.remove(&k).unwrap()
+                } else {
+                    tr.predict(*scene, &dets)
+                };
                 if let Some(inst) = installed {
                     st.plan_expired += inst.ctl.expired() as usize;
                     st.plans += 1;
@@ -365,7 +401,7 @@ pub fn run_monitored_with(h: &History, flags: Flags, before_predict: &mut dyn Fn
                 }
             }
         }
-        if flags.c03 {
+        if flags.c03 && pending.is_empty() {
             // every track is in exactly one place
             let main = tr.main_ids(shards);
             let wasted = tr.wasted_ids(shards);
